@@ -64,6 +64,9 @@ Step(st, op, v) ==
     \* any other) / deleting it restores the link
     [] op = "pv_assign" -> IF v = Bad THEN Same(st, "TraitError") ELSE Same([st EXCEPT !.pvset = 1, !.pvval = v], "")
     [] op = "pv_del" -> Same([st EXCEPT !.pvset = 0, !.pvval = 0], "")
+    \* wr = WeakRef(Leaf): 0 None | 1 refers to the object's own child | 2 refers to a Leaf of a former object
+    [] op = "wr_child" -> Same([st EXCEPT !.wr = 1], "")
+    [] op = "wr_none" -> Same([st EXCEPT !.wr = 0], "")
     [] op = "child_items" -> IF v = Bad THEN Same(st, "TraitError") ELSE Same([st EXCEPT !.child.items = Append(@, v)], "")
 \* a copy: everything but the transient attribute (back at its default 0) - including the traits the object was given
 \* with add_trait: the copy's `extra` is still a validated attribute
@@ -74,7 +77,10 @@ PvRead(st) == IF st.pvset = 1 THEN st.pvval ELSE st.child.value
 \* was still linked becomes a value of its own on the copy (equal to what it read as).  The statement speaks of equal
 \* values, not of links: modelled as the code does it.  Pickling carries the __dict__: linked stays linked.
 IsPickle(kind) == kind \in {"p0", "p1", "p2", "p3", "p4", "p5"}
-CopiedAs(st, kind, haspv) == IF IsPickle(kind) \/ haspv = 0 THEN Copied(st) ELSE [Copied(st) EXCEPT !.pvset = 1, !.pvval = PvRead(st)]
+\* a weak reference is copied by reference (copy="ref"): the copy refers to the SAME Leaf - the original's child, not its own
+WrCopied(st, kind) == IF IsPickle(kind) \/ st.wr = 0 THEN st.wr ELSE 2
+CopiedAs(st, kind, haspv) == LET c == [Copied(st) EXCEPT !.wr = WrCopied(st, kind)] IN
+                             IF IsPickle(kind) \/ haspv = 0 THEN c ELSE [c EXCEPT !.pvset = 1, !.pvval = PvRead(st)]
 \* Named deviation (known finding C14/F22): pickling, deep copying and clone_traits carry the VALUE of a trait added with
 \* add_trait but not the trait: on the copy the name is an ordinary, unvalidated attribute
 KF22Guard(pre) == pre.hasx = 1
